@@ -1,5 +1,5 @@
 (** C11 — pinned statements about the parser model *)
-From Goml Require Import Common.Base C11.Model.
+From Goml Require Import Common.Base C11.Model C11.Proofs.
 Open Scope nat_scope.
 
 (** the documented table: binary operators are left-associative (right power = left power + 1),
@@ -17,3 +17,32 @@ Proof.
   intro o; unfold call_bp, prefix_bp, dot_bp; destruct o; cbn; lia.
 Qed.
 Print Assumptions binding_powers_as_documented.
+
+(** printing any tree of the class [ok] with only the necessary parentheses and parsing it back
+    (Pratt loop, argument lists, lowering with its re-association of calls) yields the same tree,
+    for every sufficiently large fuel.  [ok]: a callee is an atom, a call or a field access, and the
+    operand of a prefix operator has no call on its postfix chain. *)
+Theorem print_then_parse_is_identity :
+  forall e, ok e = true -> exists f0, forall f, f0 <= f -> parse_fuel f (print e) = Some e.
+Proof. exact print_parse_roundtrip. Qed.
+Print Assumptions print_then_parse_is_identity.
+
+(** non-vacuity: a tree with every construct is in the class, and the model's concrete fuel suffices for it *)
+Definition ex_tree : expr :=
+  Bin BOr (Bin BMul (Bin BAdd (Atom 0) (Un UNeg (Field (Atom 1) 7))) (Call (Field (Call (Atom 2) [Atom 3; Bin BLt (Atom 4) (Atom 5)]) 8) []))
+          (Un UNot (Un UNeg (Bin BEq (Atom 6) (Atom 0)))).
+Example ex_tree_ok : ok ex_tree = true /\ parse_expr (print ex_tree) = Some ex_tree.
+Proof. split; reflexivity. Qed.
+
+(** outside the class the round trip fails in the model exactly as in the implementation (known findings):
+    parentheses around an operator callee are not honoured, and a second call or a field access after a
+    call under a prefix operator attaches to the prefix expression *)
+Example paren_callee_refuted :
+  parse_expr (print (Call (Un UNeg (Atom 0)) [Atom 1])) = Some (Un UNeg (Call (Atom 0) [Atom 1])).
+Proof. reflexivity. Qed.
+Example call_after_call_under_prefix_refuted :
+  parse_expr (print (Un UNeg (Call (Call (Atom 0) [Atom 1]) [Atom 2]))) = Some (Call (Un UNeg (Call (Atom 0) [Atom 1])) [Atom 2]).
+Proof. reflexivity. Qed.
+Example field_after_call_under_prefix_refuted :
+  parse_expr (print (Un UNot (Field (Call (Atom 0) [Atom 1]) 9))) = Some (Field (Un UNot (Call (Atom 0) [Atom 1])) 9).
+Proof. reflexivity. Qed.
